@@ -226,8 +226,13 @@ def run_real(case):
 
 def run_e2e(case):
     """the exported args.uid of the X slices, or None if the run failed"""
-    res = stage.e2e(cli_argv(case)[2:],
-                    {"a.json": [{k: v for k, v in e.items() if k != "u"} for e in case["events"]]})
+    split = case.get("split") or [0] * len(case["events"])
+    files = {}
+    for e, fi in zip(case["events"], split):     # several input files: arrival order is the merged ts order (C15)
+        files.setdefault(f"{'abc'[fi]}.json", []).append({k: v for k, v in e.items() if k != "u"})
+    if not files:
+        files = {"a.json": []}
+    res = stage.e2e(cli_argv(case)[2:], files)
     if res["rc"] != 0 or res["events"] is None:
         return None, res
     return [e["args"]["uid"] for e in res["events"] if e.get("ph") == "X" and "uid" in e.get("args", {})], res
@@ -636,7 +641,16 @@ def run(ctx: Ctx):
             if e["name"] == "DmaI":     # off-grammar for the FLEX classifier (C02 finding), not a C17 matter
                 e["name"] = "DmaX"
             e["pid"] = evs[0]["pid"]    # one rank per file: ingestion rewrites every pid to the first one (C15)
+        split = None
+        if evs and rng.random() < 0.4:
+            # the same stream cut into 2-3 files that interleave in time, one rank (pid) per file
+            nf = rng.choice([2, 2, 3])
+            split = [rng.randrange(nf) for _ in evs]
+            for e, fi in zip(evs, split):
+                e["pid"] = evs[0]["pid"] + fi
         case = {"limit": gen_limit(rng), "filter": gen_filter(rng) if rng.random() < 0.6 else "", "events": evs}
+        if split:
+            case["split"] = split
         case["limit"].pop("no_count_types", None)
         x = expected(case)
         if x is None:
